@@ -56,7 +56,7 @@ func profiles() map[string]world.Profile {
 		"ProcessEvent": 6, "ListRules": 2, "Restart": 4, "GetRule": 3}
 	ids := []string{"f1", "f2", "f3"}
 	return map[string]world.Profile{
-		"facts":     {Name: "facts", Len: 40, Locs: []string{"A"}, Ids: ids, MaxFacts: 1000, Weights: facts},
+		"facts":     {Name: "facts", BadRuleFacts: true, Len: 40, Locs: []string{"A"}, Ids: ids, MaxFacts: 1000, Weights: facts},
 		"cascade":   {Name: "cascade", Len: 40, Locs: []string{"A"}, Ids: []string{"f1", "f2", "f3", "f4"}, MaxFacts: 1000, Weights: cascade, Cascade: true},
 		"rules":     {Name: "rules", Len: 40, Locs: []string{"A"}, Ids: []string{"r1", "r2", "f1"}, Rules: true, MaxFacts: 1000, Weights: rules},
 		"expiry":    {Name: "expiry", Len: 30, Locs: []string{"A"}, Ids: ids, Rules: true, Expiry: true, Cascade: true, MaxFacts: 1000, Weights: expiry},
@@ -66,6 +66,8 @@ func profiles() map[string]world.Profile {
 			Weights: map[string]int{"AddFact": 30, "RemFact": 16, "GetFact": 10}}, // ids that look like pattern variables
 		"fan": {Name: "fan", Len: 40, Locs: []string{"A"}, Ids: []string{"f1", "f2", "f3", "f4", "f5", "f6"}, MaxFacts: 1000, Cascade: true, Fan: true,
 			Weights: map[string]int{"AddFact": 40, "RemFact": 12, "GetFact": 6, "SearchFacts": 4}},
+		"expfan": {Name: "expfan", Len: 26, Locs: []string{"A"}, Ids: []string{"f1", "f2", "f3", "f4", "f5", "f6"}, MaxFacts: 1000, Cascade: true, Fan: true, Expiry: true,
+			Weights: map[string]int{"AddFact": 45, "GetFact": 10, "SearchFacts": 6, "RemFact": 3, "Sleep": 3, "SleepReload": 10}},
 		"capacity":     {Name: "capacity", Len: 40, Locs: []string{"A"}, Ids: []string{"f1", "f2", "f3", "f4", "f5"}, Rules: true, MaxFacts: 3, Weights: capacity},
 		"lifecycle":    {Name: "lifecycle", Len: 45, Locs: []string{"A", "B"}, Ids: []string{"r1", "r2"}, Rules: true, Parents: true, Scheduled: true, MaxFacts: 1000, Weights: lifecycle},
 		"dispatch":     {Name: "dispatch", Len: 40, Locs: []string{"A", "B"}, Ids: []string{"r1", "r2", "r3", "f1", "f2"}, Rules: true, Dispatch: true, Parents: true, MaxFacts: 1000, Weights: dispatch},
@@ -185,6 +187,12 @@ func main() {
 						}
 						if op.Op == "Sleep" {
 							time.Sleep(1100 * time.Millisecond)
+							continue
+						}
+						if op.Op == "SleepReload" {
+							// things expire while nobody looks, then the location is loaded anew
+							time.Sleep(time.Duration(1100+g.R.Intn(1000)) * time.Millisecond)
+							w.Do(world.Op{Op: "Reload", Loc: op.Loc})
 							continue
 						}
 						if *faults && k >= p.Len/2 && g.R.Intn(6) == 0 {
